@@ -101,7 +101,7 @@ CHECKS = {
         technique='runtime monitor: the same manifest compiled in fresh worker processes under different PYTHONHASHSEED values, different compilation orders (histories), repeated LogicaProgram construction from one rules object and the C++ parser; byte comparison of SQL, deep comparison of the caller-owned rules object; informational module-state differ and audit hook in the workers',
         text=('Every entry of a manifest (generated programs with combines / functors / all recursion modes / imports, other-dialect variants, the '
               'integration test corpus, programs sensitive to the experimental-syntax switch) is compiled in separate interpreter processes under '
-              '4 (quick) / 21 (thorough) hash seeds, in 3 different orders, 3 times from one parsed rules object and through the C++ parser; '
+              '4 (quick) / 12 (thorough) hash seeds, in 3 different orders, 3 times from one parsed rules object and through the C++ parser; '
               'FormattedPredicateSql and table_to_export_map must be byte-identical (stop-file timestamp masked) and the rules object unchanged.'),
         note='trusted: worker processes are fresh interpreters; only the stop-file timestamp may vary'),
     'C14': dict(
